@@ -102,7 +102,7 @@ impl<'a> Rd<'a> {
 // @funcs: MessageBuilder::{from_target,question,counts}, QuestionBuilder::push, AnswerBuilder::push, StaticCompressor::{append_compressed_name,get,insert}, Record::compose, Label::iter_slice
 // @bound: one question (name xy.z, symbolic type/class) and one A answer whose owner is w.z' (label structure concrete, every label octet symbolic, so whether the suffix is shared - also across case - is decided by the solver); symbolic class/ttl/address; target StaticCompressor<FixedBufM<72>>; read back with an independent RFC 1035 reader
 // @outside: longer op sequences, Tree/Hash compressors (hashbrown: out of reach), messages beyond 72 octets
-// @tier: thorough
+// @tier: experimental
 // @timeout: 7200
 // @mem: 30
 #[kani::proof]
@@ -137,7 +137,7 @@ fn c02_static_compressor_roundtrip_q_a() {
     kani::cover!(msg.len() == 12 + 10 + 5 + 14, "nothing compressed");
 }
 
-// @tier: thorough
+// @tier: experimental
 // @timeout: 7200
 // @mem: 30
 // @funcs: MessageBuilder::{from_target,question,push,answer,authority,finish/as_slice,counts}, QuestionBuilder::push, AnswerBuilder::push, AuthorityBuilder::push, StaticCompressor::{append_compressed_name,get,insert}, Record::compose, Label::iter_slice
@@ -249,7 +249,7 @@ fn c02_static_append_two_names_22() {
     append_two::<2, 2>()
 }
 
-// @tier: thorough
+// @tier: experimental
 // @timeout: 7200
 // @mem: 30
 // @funcs: StaticCompressor::{append_compressed_name,get,insert}, Label::iter_slice
@@ -305,7 +305,10 @@ macro_rules! builder_ops {
                 assert!(c2.ancount() == 1);
                 assert!(an.as_slice().len() == before_len);
             }
-            assert!(an.as_slice()[probe] == before_octet);
+            // (a successful push legitimately changes ANCOUNT, header octets 6..=7)
+            if !(r.is_ok() && (probe == 6 || probe == 7)) {
+                assert!(an.as_slice()[probe] == before_octet);
+            }
             // stream framing, if any
             if $prefix {
                 let s = $dgram(&an);
